@@ -232,7 +232,7 @@ def run_case(case, keep_log=False):
             budget = 2_000_000 + 3000 * bound
             T_ = float(ts_t[-1])
 
-            cur = {"trial": None, "mid": None, "n": 0, "state": 0}
+            cur = {"trial": None, "mid": None, "n": 0, "state": 0, "openers": []}
 
             def online(k, ta, tb):
                 # invariants that are cheapest to judge while the run proceeds (and that bound a runaway loop). The
@@ -254,6 +254,7 @@ def run_case(case, keep_log=False):
                 cur["mid"] = float(0.5 * (torch.tensor(ta, dtype=tdt) + torch.tensor(tb, dtype=tdt)))
                 cur["state"] = 1
                 cur["n"] += 1
+                cur["openers"].append((ta, tb, cur["mid"]))
                 if cur["n"] > bound:
                     raise Online(Violation("too_many_trials", {"trials": cur["n"], "bound": bound}, cur["n"]))
                 if tb != T_ and (tb - ta) < dt_min * (1 - 1e-6) - 2 * _ulp(tb, tdt):
@@ -280,11 +281,7 @@ def run_case(case, keep_log=False):
                         probes["scheme_diverged"] = 1
                         raise Diverged()
                     raise v
-            # one request per solver step; if the solver asks twice per step the de-duplicated trace is used instead
-            tr = list(rec.trace)
-            if len(tr) != 3 * len(R.errs) and len(stubs.steps_of(tr)) == 3 * len(R.errs):
-                tr = stubs.steps_of(tr)
-            return ys, tr, R, bound
+            return ys, list(rec.trace), R, bound, list(cur["openers"])
 
         def scheme_diverged(trace, n_done):
             sde_m = stubs.make_sde(spec, case["dtype"])
@@ -321,8 +318,8 @@ def run_case(case, keep_log=False):
 
         if case.get("tail_ulps"):
             # first run to find an accepted boundary, then move the horizon a few ulp beyond it
-            ys, trace, R, bound = adaptive(ts)
-            bnds = sorted({tr[1] for tr in trace[0::3]})
+            ys, trace, R, bound, openers = adaptive(ts)
+            bnds = sorted({o[1] for o in openers})
             inside = [b for b in bnds if ts_list[-2] < b < T]
             if inside:
                 cur = torch.tensor(inside[len(inside) // 2], dtype=tdt)
@@ -333,25 +330,40 @@ def run_case(case, keep_log=False):
                 ts_list = [float(t) for t in ts]
                 T = ts_list[-1]
                 span = T - t0
-        ys, trace, R, bound = adaptive(ts)
+        ys, trace, R, bound, openers = adaptive(ts)
         log.add("adaptive", tdig(ys), len(trace), [fx(e) for e in R.errs[:50]])
         if tuple(ys.shape) != (len(ts_list), B, d) or ys.dtype != tdt:
             raise Violation("shape", {"shape": list(ys.shape)}, "run")
-        if len(trace) % 3 != 0 or len(trace) // 3 != len(R.errs) or len(R.errs) != len(R.steps):
-            raise Violation("trace_not_in_triples", {"requests": len(trace), "errs": len(R.errs), "updates": len(R.steps)}, "run")
         n_trials = len(R.errs)
+        if len(R.errs) != len(R.steps):
+            raise Violation("trace_not_in_triples", {"requests": len(trace), "errs": len(R.errs), "updates": len(R.steps)}, "run")
         if n_trials > bound:
             raise Violation("too_many_trials", {"trials": n_trials, "bound": bound}, "run")
-        # ---- schedule invariants
-        trials = []
-        for k in range(n_trials):
-            (a, b, _, _), (a2, mid, _, _), (m2, b2, _, _) = trace[3 * k: 3 * k + 3]
-            if not (a2 == a and b2 == b and m2 == mid):
-                raise Violation("trial_structure", {"k": k, "req": [[fx(x) for x in tr[:2]] for tr in trace[3 * k:3 * k + 3]]}, k)
-            want_mid = float(0.5 * (torch.tensor(a, dtype=tdt) + torch.tensor(b, dtype=tdt)))
-            if mid != want_mid:
-                raise Violation("midpoint", {"k": k, "a": fx(a), "b": fx(b), "mid": fx(mid)}, k)
-            trials.append((a, b, mid))
+        # ---- the trials. Normally the request stream is exactly three requests per trial; it is also accepted when the
+        # stream, segmented by the opener / first half / second half state machine of the online monitor, has one
+        # opener per error estimate (a solver that asks twice per step, a shape probe before the loop)
+        trials = None
+        if len(trace) == 3 * n_trials:
+            trials = []
+            for k in range(n_trials):
+                (a, b, _, _), (a2, mid, _, _), (m2, b2, _, _) = trace[3 * k: 3 * k + 3]
+                if not (a2 == a and b2 == b and m2 == mid):
+                    trials = None
+                    break
+                want_mid = float(0.5 * (torch.tensor(a, dtype=tdt) + torch.tensor(b, dtype=tdt)))
+                if mid != want_mid:
+                    raise Violation("midpoint", {"k": k, "a": fx(a), "b": fx(b), "mid": fx(mid)}, k)
+                trials.append((a, b, mid))
+        if trials is None and len(openers) == n_trials:
+            trials = list(openers)
+        if trials is None:
+            last_len = (openers[-1][1] - openers[-1][0]) if openers else 1.0
+            if openers and last_len <= 2 * _ulp(T, tdt):
+                # a 1-2 ulp final trial repeats its opener as a half step; together with a non-standard request pattern
+                # the stream cannot be segmented. Counted, not judged (the value model below still runs on `openers`).
+                probes["unsegmentable_ulp_trial"] = 1
+                raise SkipCase()
+            raise Violation("trace_not_in_triples", {"requests": len(trace), "errs": n_trials, "openers": len(openers)}, "run")
         end = t0
         consec = 0
         for k, (a, b, mid) in enumerate(trials):
